@@ -30,6 +30,8 @@ type StepMon struct {
 	Eval func(s *Sim, ctx sdk.Context) []Issue
 	// OnTxOK lets the monitor update its expectations before Eval (optional).
 	OnTxOK func(s *Sim, t *ExecTx)
+	// BeforeBoundary runs before the block-boundary evaluation (ledger of the block is available).
+	BeforeBoundary func(s *Sim, eb *ExecBlock)
 
 	sim      *Sim
 	present  map[string]string // Sub|Inst -> culprit step at which it appeared
@@ -99,6 +101,9 @@ func (m *StepMon) AfterBlock(s *Sim, eb *ExecBlock) {
 	step := "EndBlock"
 	if len(eb.Txs) == 0 {
 		step = "BeginBlock+EndBlock"
+	}
+	if m.BeforeBoundary != nil {
+		m.BeforeBoundary(s, eb)
 	}
 	m.observe(s.Ctx(), step, true)
 	s.Stats.Inc("checks/"+m.Prop, float64(m.nEvals))
